@@ -89,3 +89,74 @@ pub(crate) fn c02_accept_iff_wellformed_240() {
     }
     core::mem::forget(r);
 }
+
+/// Declared lengths up to 65535 being *accepted* and sliced correctly: 65 551-byte buffer whose first 52
+/// bytes are symbolic and whose tail is constant zero (the parser never reads the tail), families 0-2,
+/// symbolic input length.
+#[kani::proof]
+#[kani::unwind(54)]
+pub(crate) fn c02_long_declared_lengths_65551() {
+    const N: usize = 65551;
+    let head: [u8; 52] = kani::any();
+    kani::assume(head[13] >> 4 != 3);
+    let mut buf = [0u8; N];
+    let mut i = 0;
+    while i < 52 {
+        buf[i] = head[i];
+        i += 1;
+    }
+    let n: usize = kani::any();
+    kani::assume(n <= N);
+    let r = Header::try_from(&buf[..n]);
+    let want = ref_v2(&buf, n);
+    match (&r, want) {
+        (
+            Ok(h),
+            RefV2::Ok {
+                cmd,
+                fam,
+                proto,
+                len,
+            },
+        ) => {
+            assert!(h.command as u8 == cmd && h.protocol as u8 == proto);
+            let bytes: &[u8] = h.header.as_ref();
+            assert!(bytes.len() == 16 + len);
+            assert!(bytes.as_ptr() == buf.as_ptr());
+            match h.addresses {
+                Addresses::Unspecified => assert!(fam == 0),
+                Addresses::IPv4(a) => {
+                    assert!(fam == 1);
+                    assert!(
+                        a.source_port == be16(buf[24], buf[25])
+                            && a.destination_port == be16(buf[26], buf[27])
+                    );
+                }
+                Addresses::IPv6(a) => {
+                    assert!(fam == 2);
+                    assert!(
+                        a.source_port == be16(buf[48], buf[49])
+                            && a.destination_port == be16(buf[50], buf[51])
+                    );
+                }
+                Addresses::Unix(_) => assert!(false),
+            }
+            kani::cover!(len == 65535, "declared length 65535 accepted");
+            kani::cover!(
+                len > 256 && len < 65535,
+                "declared length using the high byte accepted"
+            );
+        }
+        (Ok(_), _) => assert!(false, "accepted a header the reference rejects"),
+        (Err(_), RefV2::Ok { .. }) => assert!(false, "rejected a well-formed header"),
+        (Err(ParseError::Partial(have, need)), RefV2::Partial(a, b)) => {
+            assert!(*have == a && *need == b);
+            kani::cover!(
+                b == 65535 && a == 65534,
+                "one byte short of a 65535-byte payload"
+            );
+        }
+        (Err(_), _) => {}
+    }
+    core::mem::forget(r);
+}
